@@ -4,9 +4,7 @@
 //!  * per URI: `unapply_str` is repeatable and equals `unapply_route_uri(parse(uri))`, no binding is empty;
 //!  * both patterns match the URI  =>  `are_ambiguous` in both argument orders;
 //!  * pattern_a inside the URI alphabet: apply(values taken from the URI's segments) un-applies to the same map.
-//! Known findings (known_findings.txt, harness/c18/NOTES.md) are skipped by construction: the ambiguity
-//! implication when either pattern contains a '%' (raw vs decoded literal comparison), the round trip when a
-//! parameter name contains '%' or a value contains '~', and the scheme-only pattern "x:".
+//! No C18 finding is open (all five are fixed in /repo), so nothing is skipped.
 #![no_main]
 use libfuzzer_sys::fuzz_target;
 use std::collections::HashMap;
@@ -27,11 +25,11 @@ fn probe(p: &RoutePattern, u: &str) -> Option<HashMap<String, String>> {
 }
 
 fn uri_char(c: char) -> bool {
-    c.is_ascii_alphanumeric() || "$-_.+!*'(),:@&=;/%".contains(c)
+    c.is_ascii_alphanumeric() || "$-_.+!*'(),:@&=;/%~".contains(c)
 }
 
 /// Pattern text that a RouteUri can spell: URI path characters and well-formed escapes only, and a scheme
-/// (if the text starts like one) that is a real URI scheme followed by a non-empty path.
+/// (if the text starts like one) that is a real URI scheme.
 fn in_round_trip_domain(text: &str) -> bool {
     if !text.chars().all(uri_char) {
         return false;
@@ -44,9 +42,8 @@ fn in_round_trip_domain(text: &str) -> bool {
     }
     if b.first().map(|c| c.is_ascii_alphabetic()).unwrap_or(false) {
         let head = text.split('/').next().unwrap_or("");
-        if let Some((scheme, rest)) = head.split_once(':') {
-            let ok = scheme.chars().all(|c| c.is_ascii_alphanumeric() || "+-.".contains(c));
-            if !ok || (rest.is_empty() && !text.contains('/')) {
+        if let Some((scheme, _)) = head.split_once(':') {
+            if !scheme.chars().all(|c| c.is_ascii_alphanumeric() || "+-.".contains(c)) {
                 return false;
             }
         }
@@ -64,8 +61,7 @@ fuzz_target!(|data: &[u8]| {
     let ma = pa.as_ref().and_then(|p| probe(p, &u));
     let mb = pb.as_ref().and_then(|p| probe(p, &u));
     if let (Some(pa), Some(pb)) = (&pa, &pb) {
-        // literal or parameter text must be compared decoded: known finding when an escape is involved
-        if ma.is_some() && mb.is_some() && !a.contains('%') && !b.contains('%') {
+        if ma.is_some() && mb.is_some() {
             assert!(
                 RoutePattern::are_ambiguous(pa, pb) && RoutePattern::are_ambiguous(pb, pa),
                 "{:?} is matched by {:?} and {:?} but they are not reported ambiguous",
@@ -77,8 +73,8 @@ fuzz_target!(|data: &[u8]| {
     }
     if let Some(p) = &pa {
         let names: Vec<String> = p.parameters().map(str::to_string).collect();
-        let values: Vec<&str> = u.split(['/', '\n']).filter(|s| !s.is_empty() && !s.contains('~')).collect();
-        if in_round_trip_domain(&a) && names.iter().all(|n| !n.contains('%')) && (names.is_empty() || !values.is_empty()) {
+        let values: Vec<&str> = u.split(['/', '\n']).filter(|s| !s.is_empty()).collect();
+        if in_round_trip_domain(&a) && (names.is_empty() || !values.is_empty()) {
             let m: HashMap<String, String> = names
                 .iter()
                 .enumerate()
